@@ -131,7 +131,7 @@ theorem sync_pushAll (sid : Nat) (s : Sess) (sv : Server) (m : Mirror) : Sync si
 theorem replay_of_sync {sid : Nat} {s : Sess} {sv sv' : Server} {m : Mirror} {evs : List Ev}
     (h : Sync sid s sv sv' m evs) (hs : sv.sess? sid = some s) (hq : pend s = {})
     (hq' : ∀ s', sv'.sess? sid = some s' → pend s' = {}) :
-    ∃ s' sent, sv'.sess? sid = some s' ∧ s'.core = s.core ∧ dataLines s' = dataLines s ++ sent.map dataText ∧
+    ∃ s' sent, sv'.sess? sid = some s' ∧ s'.vcore = s.vcore ∧ dataLines s' = dataLines s ++ sent.map dataText ∧
       applyMsgs m sent = evs.foldl applyEv m ∧ (MirrorOK sv s m → MirrorOK sv' s (applyMsgs m sent)) := by
   obtain ⟨s', sent, hs', hc, hd, hview⟩ := h.1 s hs
   have hv := hview m
